@@ -142,9 +142,18 @@ def run(eng, R):
         cs = get_func(p, "MultiCostFunction", "cost_sum")
         R.ob("F4", "MultiCostFunction.cost_sum", ast.unparse(cs.node.body[-1]).replace(" ", "") in ("returnnp.sum(single_costs)", "returnsum(single_costs)"), (cs.file, cs.lineno), "the multi-fit cost must be the plain sum of the member costs")
         mc = get_func(p, "MultiFit", "chi2_probability")
-        src = ast.unparse(mc.node)
-        R.ob("F4", "MultiFit.chi2_probability:members", common.Src(" ".join(src.split())).like("for _m in self._fits:") and common.Src(" ".join(src.split())).all_like("for _m in self._fits:", "_m._nexus.get('total_cov_mat_log_determinant')"), (mc.file, mc.lineno),
-             "MultiFit.chi2_probability must subtract each member's own determinant term")
+        loops = [lp for lp in ast.walk(mc.node) if isinstance(lp, ast.For) and " ".join(ast.unparse(lp.iter).split()) == "self._fits" and isinstance(lp.target, ast.Name)]
+        member_terms = [n for lp in loops for n in ast.walk(lp) if isinstance(n, ast.AugAssign) and isinstance(n.op, ast.Sub) and ("%s._nexus.get(" % lp.target.id) in ast.unparse(n.value)]
+        R.ob("F4", "MultiFit.chi2_probability:members", bool(member_terms), (mc.file, mc.lineno), "MultiFit.chi2_probability must subtract each member's own determinant term")
+
+    # ---- sibling cross-checks
+    with R.guard("determinant term = last argument of the cost function"):
+        from .c10_extra import determinant_terms
+        determinant_terms(eng, R, p, get_func)
+    with R.guard("pointwise twin shares the node-selecting constructor arguments"):
+        from .c10_extra import pointwise_twin
+        pointwise_twin(eng, R, p)
+
 
 def _defs(f, expr):
     out = ""
